@@ -1,6 +1,18 @@
 import os, re
+import regen
+
+def do_regen(ctx):
+    # T-tie: exported API of query / query/neo4j, functions of format.go, every case of the emitter's, rewriters' and builders' switches
+    regen.goext("c10", "C10.lean")
+
+
+TIE_THEOREMS = ["query_exports_classified", "neo4j_exports_classified", "format_functions_classified", "switches_known",
+                "writeExpression_cases_classified", "formatLiteral_cases_classified", "bindsLooser_cases_classified",
+                "updatingClause_cases_classified", "relPattern_cases_classified", "formatSet_cases_classified",
+                "rewriter_cases_classified", "builder_cases_classified", "constructor_cases_classified"]
 
 THEOREMS = {
+    "Dawgs.Props.C10Tie": ["Dawgs.C10.Tie." + t for t in TIE_THEOREMS],
     "Dawgs.Props.C10": [
         "Dawgs.C10.Props.norm_preserves_eval",
         "Dawgs.C10.Props.norm_idempotent",
@@ -43,6 +55,9 @@ THEOREMS = {
         "Dawgs.C10.Props.hoist_from_negation_changes_meaning",
         "Dawgs.C10.Props.two_hoisted_conjuncts_change_meaning",
         "Dawgs.C10.Props.hoist_all_of_changes_meaning",
+        "Dawgs.C10.Props.prepare_guard_sharp",
+        "Dawgs.C10.Props.prepare_guarded_preserves_eval",
+        "Dawgs.C10.Props.prepare_guarded_refuses",
         "Dawgs.C10.Props.string_negation_guard_eval",
         "Dawgs.C10.Props.query_parse_emit",
         "Dawgs.C10.Props.query_roundtrip",
@@ -53,9 +68,10 @@ THEOREMS = {
 
 # VERIF_C10_MODE selects what the Lean side answers for:
 #   live (default)  format.go and QueryBuilder.Prepare as they are in /repo
-#   fix7            Prepare with the proposal hooks/C10-fix7 applied to the tree under test (not taken by the maintainers' proxy)
+#   fix7            Prepare with the proposal hooks/C10-fix7 applied to the tree under test (not taken: r:TYPE in WHERE is not portable)
+#   fix8            Prepare with the proposal hooks/C10-fix8 applied to the tree under test (refuse what cannot be hoisted faithfully)
 #   current         format.go before the three emitter fixes (4086218, 04efdd9, 7bfe5dc)
-MODE = {"fix7": "fix7", "current": "current"}.get(os.environ.get("VERIF_C10_MODE", ""), "fixed")
+MODE = {"fix7": "fix7", "fix8": "fix8", "current": "current"}.get(os.environ.get("VERIF_C10_MODE", ""), "fixed")
 
 
 def fields(line):
@@ -67,6 +83,11 @@ def fields(line):
 
 
 LIST_ERROR = "expected an expression list AST node"
+KIND_ERROR = "relationship kind matcher"      # refusals of hooks/C10-fix8
+
+
+def modelled_refusal(impl):
+    return LIST_ERROR in impl or KIND_ERROR in impl
 
 
 def model_input(op, impl):
@@ -75,7 +96,7 @@ def model_input(op, impl):
     f = fields(impl)
     if impl.startswith("prepare-error"):
         # the one refusal the Prepare model knows: a relationship kind matcher whose parent is not an expression list
-        if LIST_ERROR in impl and f.get("A", "none") != "none":
+        if modelled_refusal(impl) and f.get("A", "none") != "none":
             return "e %s none none %s none" % (MODE, f["A"])
         return "# " + impl[:60]
     if f.get("M", "none") == "none" and f.get("A", "none") == "none" and f.get("gqm", "unmodelled") == "unmodelled":
@@ -128,7 +149,7 @@ def impl_view(impl):
         return "#"
     f = fields(impl)
     if impl.startswith("prepare-error"):
-        if LIST_ERROR in impl and f.get("A", "none") != "none":
+        if modelled_refusal(impl) and f.get("A", "none") != "none":
             return "not-in-algebra" if "(unmodelled " in f["A"] else "nowhere" + prep_view_impl(f, error=True)
         return "#"
     if f.get("M", "none") == "none":
@@ -306,9 +327,10 @@ SPEC = {
     "id": "C10",
     "title": "emitted Cypher text means the same as the query model it was emitted from",
     "level": "proof",
-    "lean_modules": ["Dawgs.Props.C10"],
+    "regen": do_regen,
+    "lean_modules": ["Dawgs.Props.C10", "Dawgs.Props.C10Tie"],
     "theorems_by_module": THEOREMS,
-    "gate_modules": ["Dawgs.Model.C10", "Dawgs.Model.C10Q", "Dawgs.Spec.C10", "Dawgs.Spec.C10Q", "Dawgs.Proofs.C10", "Dawgs.Proofs.C10Q", "Dawgs.Props.C10"],
+    "gate_modules": ["Dawgs.Model.C10", "Dawgs.Model.C10Q", "Dawgs.Spec.C10", "Dawgs.Spec.C10Q", "Dawgs.Proofs.C10", "Dawgs.Proofs.C10Q", "Dawgs.Props.C10", "Dawgs.Spec.C10Cover", "Dawgs.Props.C10Tie"],
     "suites": [
         {"name": "c10", "model_suite": "c10", "model_input": model_input, "impl_view": impl_view, "model_view": model_view,
          "judge": judge, "keep_prefix": 1, "thorough_seeds": 2},
